@@ -4,7 +4,7 @@ CONSTANTS
   Srcs = {"ready_val", "ready_exc", "after_err", "run_throw", "sready_exc", "task_val", "task_exc"}
   Atts = {"inline", "e1", "inh"}
   Args = {"V", "E", "X", "R"}
-  Behs = {"val", "throw", "throw_re", "fut_pending"}
+  Behs = {"val", "void_hop", "void_throw", "throw", "throw_re", "fut_pending"}
   Rejects = {0, 9}
   Starts = {"to_future", "to_future_e2", "get", "drop"}
 INVARIANTS CalledXorDropped DropOnlyWhenStopped RanWhereTold InvokedInOrder LazyEqualsEager CancelRunsNoValueCallback AllocBound Emit
